@@ -163,7 +163,8 @@ def corrupt_doc(rng, v):
     elif k == 5 and ctx:
         ctx.append(list(rng.choice(ctx)))
     elif k == 6 and ctx:
-        ctx[rng.randrange(len(ctx))].append(rng.choice([m, -1, m + 3, 0, m - 1]))
+        r = ctx[rng.randrange(len(ctx))]          # a bad / repeated index at the front, strictly inside or at the end
+        r.insert(rng.randrange(len(r) + 1), rng.choice([m, -1, m + 3, 0, m - 1]))
     elif k == 7:
         v['lat'] = rng.choice(['absent', 'present', 'empty'])
     elif k == 8:
